@@ -111,6 +111,10 @@ def prefixed(rng: random.Random, bits=64) -> str:
     if r < 0.55:
         return rng.choice([f"rep stos %al,%es:({di})", f"rep movsb %ds:({si}),%es:({di})", f"repz cmpsb %es:({di}),%ds:({si})",
                            f"repnz scas %es:({di}),%al", "repz ret", f"rep movs{sfx} %ds:({si}),%es:({di})", f"rep stos %{'r' if bits == 64 else 'e'}ax,%es:({di})"])
+    if r < 0.62 and bits == 64:
+        # encoding pseudo prefixes objdump prints in the mnemonic column
+        x = lambda: "%xmm" + str(rng.randrange(0, 8))  # noqa: E731
+        return rng.choice([f"{{evex}} vaddps {x()},{x()},{x()}", f"{{vex}} vpdpbusd {x()},{x()},{x()}", f"{{evex}} vmovaps {x()},{x()}", f"{{evex}} vpaddd {x()},{x()},{x()}"])
     if r < 0.7:
         return rng.choice([f"notrack jmp *{rng.choice(full)}", f"notrack call *{rng.choice(full)}", "bnd ret", f"bnd jmp L{rng.randrange(8)}",
                            f"bnd call L{rng.randrange(8)}"])
@@ -118,6 +122,10 @@ def prefixed(rng: random.Random, bits=64) -> str:
     body = rng.choice(["int3", "clc", "hlt", "lahf", "cpuid", "nop", "ret", "leave", "cld", f"inc {rng.choice(full)}", f"push {rng.choice(full)}",
                        f"mov {rng.choice(full)},{rng.choice(full)}", f"add $0x8,{rng.choice(full)}"])
     return f".byte {byte}\n\t{body}"
+
+
+# long NOPs with stacked operand-size prefixes (objdump: `data16 data16 nopw 0x0(%rax,%rax,1)`, `data16 nopw 0x0(%rax,%rax,1)`)
+STACKED_DATA16 = (".byte 0x66,0x66,0x66,0x0f,0x1f,0x84,0x00,0x00,0x00,0x00,0x00", ".byte 0x66,0x66,0x0f,0x1f,0x84,0x00,0x00,0x00,0x00,0x00")
 
 
 def rare(rng: random.Random, bits=64) -> str:
@@ -128,7 +136,8 @@ def rare(rng: random.Random, bits=64) -> str:
     acc = "%rax" if bits == 64 else "%eax"
     raw64 = [".byte 0x48,0x8d,0x74,0x26,0x00", ".byte 0x48,0x8d,0xb4,0x26,0x00,0x00,0x00,0x00", ".byte 0x48,0x8b,0x04,0x24", ".byte 0x8d,0x74,0x26,0x00",
              ".byte 0x67,0x8d,0x74,0x26,0x00", ".byte 0x67,0x8d,0xb4,0x26,0x00,0x00,0x00,0x00", ".byte 0x66,0x66,0x90", ".byte 0x66,0x66,0x66,0x90",
-             ".byte 0x66,0x66,0x2e,0x0f,0x1f,0x84,0x00,0x00,0x00,0x00,0x00", ".byte 0x48,0x8d,0x04,0x65,0x00,0x00,0x00,0x00"]
+             ".byte 0x66,0x66,0x2e,0x0f,0x1f,0x84,0x00,0x00,0x00,0x00,0x00", ".byte 0x48,0x8d,0x04,0x65,0x00,0x00,0x00,0x00",
+             STACKED_DATA16[0], STACKED_DATA16[1], "{evex} vaddps %xmm1,%xmm2,%xmm3", "{vex} vpdpbusd %xmm1,%xmm2,%xmm3", "{evex} vmovaps %xmm4,%xmm5"]
     raw32 = [".byte 0x8d,0xb4,0x26,0x00,0x00,0x00,0x00", ".byte 0x8d,0x74,0x26,0x00", ".byte 0x8d,0xb6,0x00,0x00,0x00,0x00", ".byte 0x8d,0x04,0x65,0x00,0x00,0x00,0x00",
              ".byte 0x66,0x66,0x90", ".byte 0x8b,0x04,0x24"]
     strings = [f"lods %ds:({si}),%al", f"lods %ds:({si}),{acc}", f"scas %es:({di}),%al", f"scas %es:({di}),{acc}", f"outsb %ds:({si}),(%dx)", f"insb (%dx),%es:({di})",
